@@ -41,6 +41,9 @@ R09.15 a value read with .get() and derived when unset is derived when the
 R09.16 path-wise form of R09.2: within one configuration of a launcher the
        node identity reaches the command (or its file) on every path of
        get_launch_cmds if it does on some, unless the task has no placement
+R09.17 path-wise form of R09.8 b: a list whose length feeds a rank count
+       option has one entry per rank under EVERY definition which reaches the
+       len() (no branch re-binds it to a per-node / de-duplicated collection)
 """
 
 import ast
@@ -3351,6 +3354,128 @@ def r09_8(prog, rep, classes, rid='R09.8', minimum=13, floor=8):
 
 
 # ------------------------------------------------------------------------------
+# R09.17  the list whose length is the rank count is per-rank on EVERY path
+#
+def _card_strip(e):
+    """the collection which has as many elements as `e`: through list() /
+    tuple() / sorted() / reversed() / .copy() and comprehensions with one
+    unfiltered generator (the element expression does not change the count)"""
+    for _ in range(6):
+        if isinstance(e, ast.Call) and isinstance(e.func, ast.Name) and \
+                e.func.id in ('list', 'tuple', 'sorted', 'reversed') and \
+                len(e.args) >= 1:
+            e = e.args[0]
+        elif isinstance(e, ast.Call) and isinstance(e.func, ast.Attribute) \
+                and e.func.attr == 'copy' and not e.args:
+            e = e.func.value
+        elif isinstance(e, (ast.ListComp, ast.GeneratorExp)) and \
+                len(e.generators) == 1 and not e.generators[0].ifs:
+            e = e.generators[0].iter
+        else:
+            break
+    return e
+
+
+def count_kinds(f, e, at, _seen=None):
+    """[(kind, cfg node of the definition or None)]: what the number of
+    elements of collection `e` counts when the statement at cfg node `at`
+    runs, separately for every definition of a name which reaches it"""
+    seen = set() if _seen is None else _seen
+    e = _card_strip(e)
+    if not isinstance(e, ast.Name) or at is None:
+        return [(site_kind(f, e, at), None)]
+    if not place_derived(f, e.id):
+        return [(None, None)]
+    defs = reaching_defs(cfg_of(f), e.id, at)
+    if not defs:
+        return [(node_kind(f, e), None)]
+    out = []
+    for dn, v in defs:
+        if (e.id, dn.id) in seen:
+            continue
+        seen.add((e.id, dn.id))
+        if v is None:
+            out.append((None, dn))
+        elif _is_empty_init(v):
+            k = classify_name(f, e.id, (e.id,), defs_too=False)
+            if k is not None:
+                out.append((k, dn))
+        else:
+            ks = [k for k, _ in count_kinds(f, v, dn.id, seen)]
+            if not ks:
+                continue
+            if any(k is None for k in ks):
+                out.append((None, dn))
+            elif all(k == DISTINCT for k in ks):
+                out.append((DISTINCT, dn))
+            elif all(k in (PER_SLOT, ADJACENT) for k in ks):
+                out.append((PER_SLOT, dn))
+            else:
+                out.append((None, dn))
+    return out
+
+
+def r09_17(prog, rep, classes, rid='R09.17', minimum=13):
+    rep.rule(rid, 'a list whose length feeds a rank count option has one '
+             'entry per rank under every definition which reaches the len(): '
+             'no path between the per-rank list built from the slots and the '
+             'count re-binds the name to a collection which names every node '
+             'once', minimum=minimum)
+    total = 0
+    for K in classes:
+        f0 = prog.find_method(K, 'get_launch_cmds')
+        if f0 is None or always_raises(f0):
+            rep.ok(rid, K, '%s: builds no command' % K.name)
+            continue
+        G = graph(prog, K, ['get_launch_cmds'], implicit=False, control=False)
+        nbad, nlen = 0, 0
+        for w in sorted(G.funcs):
+            f = G.funcs[w]
+            rep.saw(f)
+            _PLACE_DERIVED[f.where] = place_pred(G, w)
+            for txt, v, site in format_sites(f.node):
+                m = RANK_OPTS.search(txt)
+                if not m:
+                    continue
+                for l, via in leaves(f, v):
+                    if not is_len(l):
+                        continue
+                    cn = cfg_node_of(f, l)
+                    if cn is None:
+                        continue
+                    ks = count_kinds(f, l.args[0], cn.id)
+                    per = [d for k, d in ks if k in (PER_SLOT, ADJACENT)]
+                    dis = [d for k, d in ks if k == DISTINCT]
+                    if per:
+                        nlen += 1
+                    if not (per and dis):
+                        continue
+                    nbad += 1
+                    d = dis[0]
+                    rep.bad(rid, f, '%s:%s:rebound' % (K.name, m.group(1)),
+                            '%s.%s feeds `%s` with `%s`, and two definitions '
+                            'of that list reach the count: one with an entry '
+                            'per rank, and `%s` (line %s) with one entry per '
+                            'distinct node - on the path through the latter '
+                            'the command asks for as many processes as the '
+                            'placement has nodes'
+                            % (K.name, f.name, m.group(1), short(l, 50),
+                               short(d.ast, 60) if d is not None else '?',
+                               getattr(d.ast, 'lineno', '?')
+                               if d is not None else '?'),
+                            f.loc(l),
+                            history='48 ranks on 3 nodes with the branch '
+                            'which compacts the list taken: the command asks '
+                            'for 3 processes')
+        total += nlen
+        if not nbad:
+            rep.ok(rid, f0, '%s: %d per-rank list length(s) in rank count '
+                   'options, per-rank under every reaching definition'
+                   % (K.name, nlen), f0.loc())
+    rep.stat('R09.17 per-rank list lengths in rank count options', total)
+
+
+# ------------------------------------------------------------------------------
 # R09.10  files written for a command are truncated
 #
 _OPENERS = {'open', 'ru.ru_open', 'ru_open', 'io.open', 'codecs.open'}
@@ -5476,6 +5601,7 @@ def run(prog, rep, tier):
     rep.attempt(r09_6, prog, rep, classes)
     rep.attempt(r09_7, prog, rep)
     rep.attempt(r09_8, prog, rep, classes)
+    rep.attempt(r09_17, prog, rep, classes)
     rep.attempt(r09_9, prog, rep, classes)
     rep.attempt(r09_10, prog, rep, classes)
     rep.attempt(r09_11, prog, rep, classes)
@@ -6113,6 +6239,40 @@ SILENT += [
 # behaviour-preserving refactorings of the corpus (/verif/seeded/C09-r*):
 # each hunk of the patch becomes one text edit of a SILENT variant
 #
+# ------------------------------------------------------------------------------
+# round 8: R09.17 (seed C09-k1 and the same slip spelled differently)
+#
+_MR_HF    = ("            # Create a hostfile from the list of hosts\n"
+             "            hostfile = ru.create_hostfile(sandbox, uid, host_list,\n"
+             "                                          impaired=True)\n")
+_MR_HFC   = ("            hostfile = ru.create_hostfile(sandbox, uid, host_list,\n"
+             "                                          impaired=True)\n")
+_MR_CUT   = "        if len(host_list) > 42:\n"
+
+MUTATIONS += [
+    dict(name='R09.17 mpirun: host file branch compacts host_list under its own name, -np = len(host_list) (seed C09-k1)', rules=('R09.17',), edits=[
+        (_MR, _MR_HF, "            host_list = ['%s slots=%d' % (host, host_list.count(host))\n                         for host in sorted(set(host_list))]\n" + _MR_HFC)]),
+    dict(name='R09.17 mpirun: host file branch re-binds host_list to sorted(set(host_list))', rules=('R09.17',), edits=[
+        (_MR, _MR_HF, "            host_list = sorted(set(host_list))\n" + _MR_HFC)]),
+    dict(name='R09.17 mpirun: host list branch de-duplicates host_list by dict.fromkeys', rules=('R09.17',), edits=[
+        (_MR, _MR_MPTSTR, "            host_list = list(dict.fromkeys(host_list))\n" + _MR_MPTSTR)]),
+]
+
+SILENT += [
+    dict(name='mpirun: host file branch re-binds host_list to a copy of itself', edits=[
+        (_MR, _MR_HF, "            host_list = list(host_list)\n" + _MR_HFC)]),
+    dict(name='mpirun: rank count taken before the branches and kept in a local', edits=[
+        (_MR, _MR_CUT, "        n_ranks = len(host_list)\n" + _MR_CUT),
+        (_MR, _MR_NP, "        if self._mpt: np = 1\n        else        : np = n_ranks\n")]),
+    dict(name='mpirun: host_list re-bound to a comprehension over the slots', edits=[
+        (_MR, _MR_CUT, "        host_list = [slot['node_name'] for slot in slots]\n" + _MR_CUT)]),
+    dict(name='mpirun: host file branch works on a slice copy of host_list', edits=[
+        (_MR, _MR_HF, "            host_list = host_list[:]\n" + _MR_HFC)]),
+    dict(name='mpirun: -np from the slots themselves', edits=[
+        (_MR, _MR_NP, "        if self._mpt: np = 1\n        else        : np = len(slots)\n")]),
+]
+
+
 def edits_from_patch(path):
     import os
     if not os.path.exists(path):
